@@ -44,7 +44,18 @@ pub struct EvaluatedPaths {
 
 impl EvaluatedPaths {
     fn covers(&self, baseline_path: &str) -> bool {
-        self.paths.contains(baseline_path) || (self.scanned && !Path::new(baseline_path).exists())
+        self.paths.contains(baseline_path) || (self.scanned && is_gone(Path::new(baseline_path)))
+    }
+}
+
+/// True when `path` is known not to exist. `Path::exists` is also false when the path cannot
+/// be examined (a parent directory without search permission): such a file may well exist and
+/// still violate, so an error other than "not found" means "cannot tell", not "gone".
+fn is_gone(path: &Path) -> bool {
+    match path.try_exists() {
+        Ok(exists) => !exists,
+        // a parent that has become a regular file: the path cannot exist below it
+        Err(e) => e.kind() == std::io::ErrorKind::NotADirectory,
     }
 }
 
